@@ -133,6 +133,12 @@ func genRespSpec(r *rand.Rand, bias string, resIdx, epoch int) RespSpec {
 	if chance(r, 0.03) {
 		rs.FailBody, rs.FailAt = true, r.IntN(8)
 	}
+	if chance(r, 0.3) {
+		rs.Chunked = true
+		if chance(r, 0.3) {
+			rs.Proto = "HTTP/1.0" // close-delimited
+		}
+	}
 	return rs
 }
 
